@@ -444,9 +444,9 @@ def _same_decl(m, a, b):
         return False
     if a[0] == "wire":
         x, y = m["wires"][a[1]], m["wires"][b[1]]
-        # attributes reach only the first name in the reader; the engine's writer groups attribute-free nets only
-        return (x["type"], x["ranged"], x["msb"], x["lsb"]) == (y["type"], y["ranged"], y["msb"], y["lsb"]) \
-            and not x["attrs"] and not y["attrs"] and (x["name"] in m.get("asc", ())) == (y["name"] in m.get("asc", ()))
+        # the range and the attributes of `(* .. *) wire [3:0] a, b;` belong to both names
+        return (x["type"], x["ranged"], x["msb"], x["lsb"], x["attrs"]) == (y["type"], y["ranged"], y["msb"], y["lsb"], y["attrs"]) \
+            and (x["name"] in m.get("asc", ())) == (y["name"] in m.get("asc", ()))
     if a[0] == "port":
         x, y = m["ports"][a[1]], m["ports"][b[1]]
         return (x["dir"], x["vtype"], x["ranged"], x["w"], x.get("lsb", 0)) == (y["dir"], y["vtype"], y["ranged"], y["w"], y.get("lsb", 0)) \
